@@ -115,7 +115,8 @@ def runEp (roleTok : String) (magic : Nat) (pre seed : List UInt8) (gLen : Nat) 
   -- without an installed admission nothing is counted
   let (acq, rel) := if fl.adm == 0 then (0, 0) else (acq, rel)
   let common := ["pfx=" ++ listToHexTok pfx, "dg=" ++ (if h.status == .downgradeV1 then "1" else "0"),
-    "adm=" ++ toString acq ++ "," ++ toString rel]
+    -- third number: 1 iff the connection was used while an admission lease was outstanding (never)
+    "adm=" ++ toString acq ++ "," ++ toString rel ++ ",0"]
   match h.status, h.sess with
   | .ok, some s =>
     let (outs, s', w) ← runActions acts s h.rest h.written []
